@@ -89,6 +89,25 @@ def run(R):
         for bb, i, st in wr:
             v = b._origin_def(('stmt', bb, i, st['rv']), 0, set())
             R.check(term_contains(v, lambda x: x and x[0] == 'arg' and x[2] == 'path'), 'C03.R1', 'path-from-method-path', site(b, bb, i), 'path_and_query = %s' % show(v)[:140])
+        # the appended arm (origin with a path prefix): "{origin path}{method path}" — the origin's *path*, not path+query
+        napp = 0
+        for bb, i, st in wr:
+            v = b._origin_def(('stmt', bb, i, st['rv']), 0, set())
+            tpl, fargs = fmt_of(b, v)
+            if tpl is not None:
+                napp += 1
+                R.eq(tpl, ['{}', '{}'], 'C03.R1', 'path-append-template', site(b, bb, i), 'template of the prefixed method path')
+                ok0 = len(fargs) == 2 and is_call(strip_refs(fargs[0]), name='path') and 'PathAndQuery' in strip_refs(fargs[0])[1]
+                ok1 = len(fargs) == 2 and term_contains(fargs[1], lambda x: x and x[0] == 'arg' and x[2] == 'path')
+                R.check(ok0 and ok1, 'C03.R1', 'path-append-args', site(b, bb, i), 'pieces = [origin.path() (not as_str(): that includes the query), method path]: %s' % [show(x)[:60] for x in fargs])
+            else:
+                sv = show(v)
+                R.check('as_str' not in sv and 'to_string' not in sv or term_contains(v, lambda x: x and x[0] == 'arg' and x[2] == 'path') and not term_contains(v, lambda x: is_call(x, name='as_str') and 'PathAndQuery' in x[1]), 'C03.R1', 'path-no-query-leak', site(b, bb, i), 'path_and_query = %s' % sv[:120])
+        R.check(napp <= 1, 'C03.R1', 'path-append-arms', site(b), 'arms that prefix the origin path: %d' % napp)
+        if napp == 0:
+            # hand-written join: the origin part must come from PathAndQuery::path
+            used = [t_['name'] for bb_, t_ in b.calls() if 'PathAndQuery' in (t_.get('fn') or '') and t_.get('name') in ('as_str', 'path', 'query')]
+            R.check('as_str' not in used and 'path' in used, 'C03.R1', 'path-append-args', site(b), 'PathAndQuery accessors used when joining the origin prefix: %r (as_str() would carry the origin query into the path)' % used)
         rets = mirlib.returned_terms(b)
         R.check(all(is_call(strip_refs(t), name='into_http') for bb, t in rets) and rets, 'C03.R1', 'returns-that-request', site(b), 'returned value = %s' % [show(t)[:60] for bb, t in rets])
         # Request::into_http installs what it was given
